@@ -23,3 +23,13 @@ check("C19",
       "Exploration: every legal history of producer/consumer steps up to length 8 (quick) / 10 (thorough) is enumerated against the real channel, longer random ones sampled; what each poll may return and when a parked waker must have fired is decided by a reference model. A 2-thread stress checks that the concatenation of received batches equals the sequence merged.",
       "Trusted: the slot model and counting waker. Preemption points inside modify()/recv() are reached only by the stress (not enumerated); the user-visible refresh_metadata() half is exercised by the mock-cluster checks.",
       "DESIGN.md 2/C19")
+check("C13",
+      "property-based testing in virtual time: generated (delay, outcome) assignments drive the real execute() under a paused clock; trace-validity predicate; exhaustive small grid",
+      "Exploration: for each generated assignment of completion times and outcomes (ties with timer ticks over-represented) the trace of the real speculative_execution::execute is checked against the property: number and start times of executions, return time, returned result, and that it returns at all. A 3-execution grid is enumerated exhaustively.",
+      "Trusted: tokio's paused clock; the trace predicate. The idempotent-only gate and distinct plan targets live in the session's execution path and are covered end to end by the mock-cluster part of this check (when present in evidence sub_checks).",
+      "DESIGN.md 2/C13")
+check("C18",
+      "property-based testing with a scripted clock (hook) + multi-threaded stress: invariant over the history of returned timestamps",
+      "Exploration: generated clock-reading sequences (stalls, repeats, backward steps, pre-epoch) on one generator, and 2-16 threads x up to millions of calls with the clock stalled or real; all returned values pairwise distinct and increasing per caller.",
+      "Trusted: the scripted clock hook (substitutes SystemTime::now() inside compute_next only). Interleavings inside the CAS loop are sampled by real parallelism, not enumerated. The 'explicit timestamp is sent unchanged' half is checked on wire frames by C09 and by the mock-cluster part.",
+      "DESIGN.md 2/C18")
